@@ -5,9 +5,13 @@
 //   prop   one proportional split with a proportion proportional_mode::get_split can produce
 //          (left = d - d/2, right = d/2, d in 2..1024) of a divisible blocked_range: two non-empty adjacent parts that
 //          add up -- for all sizes incl. > 2^24 (float rounding) and up to 2^64-1.
-//   nd_even / nd_prop   one split of a divisible blocked_range2d / 3d / blocked_nd_range<.,2..4> (per-dimension sizes
-//          < 2^26 so that the size*grain products are exact in double): the parts differ in exactly one dimension, are
-//          non-empty and adjacent there and add up.
+//   nd_even / nd_prop   a chain of up to 64 splits (each time continuing with the left or right part, chosen by the bits of
+//          div) of a blocked_range2d / 3d / blocked_nd_range<.,2..4> over int or size_t, per-dimension sizes up to the
+//          type's maximum and grain sizes up to 2^63: each split changes exactly one dimension, that dimension was
+//          divisible (size > grain: "a range that is not divisible is never split"), the parts are non-empty, adjacent and add up.
+//   rvec   model-based: range_vector<Range,8> (the ring buffer of the auto/affinity partitioners) under generated sequences of
+//          split_to_fill(depth) / pop_front / pop_back against a std::deque model: same ranges, same depths, same order,
+//          every Range object constructed is destroyed exactly once.
 // usage:  c05_seq_rc <max_success>        (env VERIF_LEG_SEED, VERIF_REPLAY_DIR)   |   c05_seq_rc replay <file>
 // a case is one text line:  prop=<p> vt=<i32|i64|u64|u8> rt=<br|2d|3d|nd> div=<d> dims=<begin>:<size>:<grain>[,...]
 #include <rapidcheck.h>
@@ -16,17 +20,19 @@
 #include "oneapi/tbb/blocked_range2d.h"
 #include "oneapi/tbb/blocked_range3d.h"
 #include "oneapi/tbb/blocked_nd_range.h"
+#include "oneapi/tbb/partitioner.h"
 
-struct SCase { std::string prop = "even", vt = "u64", rt = "br"; uint64_t div = 2; int D = 1; uint64_t b[4] = { 0, 0, 0, 0 }, n[4] = { 0, 0, 0, 0 }, g[4] = { 1, 1, 1, 1 }; };
+struct SCase { std::string prop = "even", vt = "u64", rt = "br", ops; uint64_t div = 2; int D = 1; uint64_t b[4] = { 0, 0, 0, 0 }, n[4] = { 0, 0, 0, 0 }, g[4] = { 1, 1, 1, 1 }; };
 static std::string sbegin(const std::string& vt, uint64_t b) { return (vt == "i32" || vt == "i64") ? std::to_string((long long)b) : std::to_string((unsigned long long)b); }
 static std::string text(const SCase& c) {
     std::string s = "prop=" + c.prop + " vt=" + c.vt + " rt=" + c.rt + " div=" + std::to_string((unsigned long long)c.div) + " dims=";
     for (int d = 0; d < c.D; d++) s += (d ? "," : "") + sbegin(c.vt, c.b[d]) + ":" + std::to_string((unsigned long long)c.n[d]) + ":" + std::to_string((unsigned long long)c.g[d]);
+    if (!c.ops.empty()) s += " ops=" + c.ops;
     return s;
 }
 static std::string kv(const std::string& l, const char* k) { std::string key = std::string(" ") + k + "=", s = " " + l; size_t p = s.find(key); if (p == std::string::npos) return ""; size_t e = s.find(' ', p + 1); return s.substr(p + key.size(), e == std::string::npos ? std::string::npos : e - p - key.size()); }
 static bool parse(const std::string& l, SCase& c) {
-    c.prop = kv(l, "prop"); c.vt = kv(l, "vt"); c.rt = kv(l, "rt"); c.div = strtoull(kv(l, "div").c_str(), nullptr, 10); std::string ds = kv(l, "dims"); c.D = 0;
+    c.ops = kv(l, "ops"); c.prop = kv(l, "prop"); c.vt = kv(l, "vt"); c.rt = kv(l, "rt"); c.div = strtoull(kv(l, "div").c_str(), nullptr, 10); std::string ds = kv(l, "dims"); c.D = 0;
     for (size_t p = 0; p < ds.size() && c.D < 4;) { size_t e = ds.find(',', p); std::string it = ds.substr(p, e == std::string::npos ? std::string::npos : e - p); size_t c1 = it.find(':'), c2 = it.find(':', c1 + 1); if (c1 == std::string::npos || c2 == std::string::npos) return false;
         c.b[c.D] = (c.vt == "i32" || c.vt == "i64") ? (uint64_t)strtoll(it.c_str(), nullptr, 10) : strtoull(it.c_str(), nullptr, 10); c.n[c.D] = strtoull(it.c_str() + c1 + 1, nullptr, 10); c.g[c.D] = strtoull(it.c_str() + c2 + 1, nullptr, 10); c.D++; if (e == std::string::npos) break; p = e + 1; }
     return c.D > 0 && !c.prop.empty();
@@ -84,22 +90,78 @@ template <class V> static void box(const tbb::blocked_range2d<V, V>& r, Box& b, 
 template <class V> static void box(const tbb::blocked_range3d<V, V, V>& r, Box& b, const SCase& c) { setd(b, 0, r.pages(), c); setd(b, 1, r.rows(), c); setd(b, 2, r.cols(), c); }
 template <class V, unsigned N, class S> static void box(const tbb::detail::d1::blocked_nd_range_impl<V, N, S>& r, Box& b, const SCase& c) { for (unsigned d = 0; d < N; d++) setd(b, (int)d, r.dim(d), c); }
 template <class R> static std::string judge_nd_r(R x, const SCase& c) {
-    if (!x.is_divisible()) return "";
-    g_nontrivial = true; Box o{}, a{}, b{}; box(x, o, c);
-    if (c.prop == "nd_prop") { tbb::proportional_split p((size_t)(c.div - c.div / 2), (size_t)(c.div / 2)); R y(x, p); box(x, a, c); box(y, b, c); }
-    else { R y(x, tbb::split()); box(x, a, c); box(y, b, c); }
-    int changed = 0;
-    for (int d = 0; d < c.D; d++) {
-        if (a.lo[d] == o.lo[d] && a.hi[d] == o.hi[d] && b.lo[d] == o.lo[d] && b.hi[d] == o.hi[d]) continue;
-        changed++; std::string e = split_ok(o.lo[d], o.hi[d], a.lo[d], a.hi[d], b.lo[d], b.hi[d]); if (!e.empty()) return fmt("dimension %d: ", d) + e;
+    for (int step = 0; step < 64; step++) {
+        if (!x.is_divisible()) return "";
+        g_nontrivial = true; Box o{}, a{}, b{}; box(x, o, c);
+        R keep = x;
+        if (c.prop == "nd_prop") { tbb::proportional_split p((size_t)(c.div - c.div / 2), (size_t)(c.div / 2)); R y(x, p); box(x, a, c); box(y, b, c); if ((c.div >> (step % 60)) & 1) keep = y; else keep = x; }
+        else { R y(x, tbb::split()); box(x, a, c); box(y, b, c); if ((c.div >> (step % 60)) & 1) keep = y; else keep = x; }
+        int changed = 0;
+        for (int d = 0; d < c.D; d++) {
+            if (a.lo[d] == o.lo[d] && a.hi[d] == o.hi[d] && b.lo[d] == o.lo[d] && b.hi[d] == o.hi[d]) continue;
+            changed++; std::string e = split_ok(o.lo[d], o.hi[d], a.lo[d], a.hi[d], b.lo[d], b.hi[d]); if (!e.empty()) return fmt("split %d, dimension %d: ", step, d) + e;
+            if (!(o.hi[d] - o.lo[d] > c.g[d])) return fmt("split %d cut dimension %d of size %llu although its grain size is %llu (not divisible)", step, d, U(o.hi[d] - o.lo[d]), U(c.g[d]));
+        }
+        if (changed != 1) return fmt("split %d: %d dimensions changed by one split", step, changed);
+        x = keep;
     }
-    if (changed != 1) return fmt("%d dimensions changed by one split", changed);
     return "";
+}
+// ---- range_vector<R, 8> against a deque model
+struct CR : tbb::blocked_range<long> {   // counting range
+    static long live, built; typedef tbb::blocked_range<long> B;
+    CR(long b, long e, size_t g) : B(b, e, g) { live++; built++; }
+    CR(const CR& o) : B(o) { live++; built++; }
+    CR(CR& o, tbb::split s) : B(o, s) { live++; built++; }
+    ~CR() { live--; }
+};
+long CR::live = 0, CR::built = 0;
+static std::string judge_rvec(const SCase& c) {
+    struct M { long lo, hi; int depth; };
+    CR::live = 0; CR::built = 0; std::string err;
+    {
+        CR root((long)c.b[0], (long)(c.b[0] + c.n[0]), (size_t)c.g[0]);
+        tbb::detail::d1::range_vector<CR, 8> rv(root);
+        std::deque<M> m; m.push_back({ root.begin(), root.end(), 0 });
+        auto same = [&](const char* when) -> bool {
+            if ((size_t)rv.size() != m.size()) { err = fmt("%s: size() %d, model %zu", when, (int)rv.size(), m.size()); return false; }
+            if (rv.empty() != m.empty()) { err = fmt("%s: empty() wrong", when); return false; }
+            if (m.empty()) return true;
+            if (rv.back().begin() != m.back().lo || rv.back().end() != m.back().hi || rv.back_depth() != m.back().depth) { err = fmt("%s: back() is [%ld,%ld) depth %d, model [%ld,%ld) depth %d", when, rv.back().begin(), rv.back().end(), (int)rv.back_depth(), m.back().lo, m.back().hi, m.back().depth); return false; }
+            if (rv.front().begin() != m.front().lo || rv.front().end() != m.front().hi || rv.front_depth() != m.front().depth) { err = fmt("%s: front() is [%ld,%ld) depth %d, model [%ld,%ld) depth %d", when, rv.front().begin(), rv.front().end(), (int)rv.front_depth(), m.front().lo, m.front().hi, m.front().depth); return false; }
+            if (CR::live != (long)m.size() + 1) { err = fmt("%s: %ld Range objects alive, %zu expected", when, CR::live, m.size() + 1); return false; }
+            return true;
+        };
+        int pushes = 0;
+        for (size_t p = 0; p < c.ops.size() && err.empty(); p++) {
+            char op = c.ops[p];
+            if (op == 'f') {
+                int d = 0; while (p + 1 < c.ops.size() && isdigit((unsigned char)c.ops[p + 1])) d = d * 10 + (c.ops[++p] - '0');
+                if (m.empty()) continue;
+                rv.split_to_fill((tbb::detail::d1::depth_t)d);
+                while (m.size() < 8 && m.back().depth < d && (size_t)(m.back().hi - m.back().lo) > c.g[0]) {
+                    M x = m.back(); m.pop_back(); long mid = x.lo + (x.hi - x.lo) / 2;
+                    m.push_back({ mid, x.hi, x.depth + 1 }); m.push_back({ x.lo, mid, x.depth + 1 }); pushes++;     // back() keeps the left half
+                }
+                same("after split_to_fill");
+            } else if (op == 'p') { if (m.size() < 2) continue; rv.pop_front(); m.pop_front(); same("after pop_front"); }      // the partitioners offer front() only while size() > 1
+            else if (op == 'b') { if (m.empty()) continue; rv.pop_back(); m.pop_back(); same("after pop_back"); }
+        }
+        if (pushes > 8) g_nontrivial = true;     // the ring index has wrapped
+    }
+    if (err.empty() && CR::live != 0) err = fmt("%ld Range objects never destroyed (%ld built)", CR::live, CR::built);
+    return err.empty() ? "" : "range_vector: " + err;
 }
 static std::string judge_nd(const SCase& c) {
     for (int d = 0; d < c.D; d++) if (c.n[d] == 0) return "";
     if (c.rt == "2d" && c.D == 2) { if (c.vt == "u64") { auto r = mk<size_t>(c, 0), q = mk<size_t>(c, 1); return judge_nd_r(tbb::blocked_range2d<size_t, size_t>(r.begin(), r.end(), r.grainsize(), q.begin(), q.end(), q.grainsize()), c); }
         auto r = mk<int>(c, 0), q = mk<int>(c, 1); return judge_nd_r(tbb::blocked_range2d<int, int>(r.begin(), r.end(), r.grainsize(), q.begin(), q.end(), q.grainsize()), c); }
+    if (c.rt == "3d" && c.D == 3 && c.vt == "u64") { auto p = mk<size_t>(c, 0), r = mk<size_t>(c, 1), q = mk<size_t>(c, 2); return judge_nd_r(tbb::blocked_range3d<size_t, size_t, size_t>(p.begin(), p.end(), p.grainsize(), r.begin(), r.end(), r.grainsize(), q.begin(), q.end(), q.grainsize()), c); }
+    if (c.rt == "nd" && c.vt == "u64") switch (c.D) {
+    case 2: return judge_nd_r(tbb::blocked_nd_range<size_t, 2>(mk<size_t>(c, 0), mk<size_t>(c, 1)), c);
+    case 3: return judge_nd_r(tbb::blocked_nd_range<size_t, 3>(mk<size_t>(c, 0), mk<size_t>(c, 1), mk<size_t>(c, 2)), c);
+    default: return "";
+    }
     if (c.rt == "3d" && c.D == 3) { auto p = mk<int>(c, 0), r = mk<int>(c, 1), q = mk<int>(c, 2); return judge_nd_r(tbb::blocked_range3d<int, int, int>(p.begin(), p.end(), p.grainsize(), r.begin(), r.end(), r.grainsize(), q.begin(), q.end(), q.grainsize()), c); }
     if (c.rt == "nd") switch (c.D) {
     case 2: return judge_nd_r(tbb::blocked_nd_range<int, 2>(mk<int>(c, 0), mk<int>(c, 1)), c);
@@ -113,6 +175,7 @@ static std::string judge(const SCase& c) {
     for (int d = 0; d < c.D; d++) if (c.g[d] == 0) return "";
     if (c.prop == "even") { if (c.vt == "i32") return judge_even<int>(c); if (c.vt == "i64") return judge_even<long>(c); if (c.vt == "u8") return judge_even<unsigned char>(c); return judge_even<size_t>(c); }
     if (c.prop == "prop") { if (c.div < 2) return ""; if (c.vt == "i32") return judge_prop<int>(c); if (c.vt == "i64") return judge_prop<long>(c); if (c.vt == "u8") return judge_prop<unsigned char>(c); return judge_prop<size_t>(c); }
+    if (c.prop == "rvec") return judge_rvec(c);
     if (c.div < 2) return "";
     return judge_nd(c);
 }
@@ -153,13 +216,29 @@ static SCase gen_case(const std::string& prop) {
         }
         if (g == 0) g = 1;
         c.n[0] = n; c.g[0] = g; c.b[0] = gen_beg(c.vt, n);
+    } else if (prop == "rvec") {
+        c.vt = "i64"; c.rt = "br"; c.D = 1; c.b[0] = pick(0, 50); c.g[0] = pick(1, 4); c.n[0] = pick(0, 4) ? pick(200, 5000) : pick(1, 40);
+        int len = (int)pick(1, 40); int depth = (int)pick(1, 6);
+        for (int i = 0; i < len; i++) {
+            uint64_t k = pick(0, 10);
+            if (k < 4) { depth += (int)pick(0, 3); c.ops += "f" + std::to_string(depth); }     // demand raises max_depth
+            else if (k < 8) c.ops += "p"; else c.ops += "b";
+        }
     } else {
-        uint64_t k = pick(0, 5); c.rt = k == 0 ? "2d" : k == 1 ? "3d" : "nd"; c.vt = (c.rt == "2d" && pick(0, 2)) ? "u64" : "i32";
-        c.D = c.rt == "2d" ? 2 : c.rt == "3d" ? 3 : (int)pick(2, 5);
+        uint64_t k = pick(0, 5); c.rt = k == 0 ? "2d" : k == 1 ? "3d" : "nd"; c.vt = pick(0, 2) ? "u64" : "i32";
+        c.D = c.rt == "2d" ? 2 : c.rt == "3d" ? 3 : (int)pick(2, c.vt == "u64" ? 4 : 5);
+        c.div = pick(0, 2) ? pick_incl(2, ~0ull >> 4) : c.div;          // the bits also choose which part the chain continues with
+        bool huge = pick(0, 3) == 0;
         for (int d = 0; d < c.D; d++) {
-            uint64_t mx = (1ull << 26) - 1; uint64_t n = std::max<uint64_t>(1, pick(0, 3) ? pick(1, 40) : gen_size(mx));
-            uint64_t g = pick(0, 3) == 0 ? std::max<uint64_t>(1, n - pick(0, std::min<uint64_t>(n, 2))) : pick(0, 2) ? pick(1, 6) : pick(1, n + 2);
-            c.n[d] = n; c.g[d] = g; c.b[d] = c.vt == "u64" ? pick(0, 50) : (uint64_t)((long long)pick(0, 100) - 50);
+            uint64_t mx = c.vt == "u64" ? ~0ull : (uint64_t)INT_MAX; uint64_t n, g;
+            if (!huge) { mx = std::min<uint64_t>(mx, (1ull << 26) - 1); n = std::max<uint64_t>(1, pick(0, 3) ? pick(1, 40) : gen_size(mx));
+                g = pick(0, 3) == 0 ? std::max<uint64_t>(1, n - pick(0, std::min<uint64_t>(n, 2))) : pick(0, 2) ? pick(1, 6) : pick(1, n + 2); }
+            else {          // sizes and grains up to the largest representable: size*grain leaves 64 bits and the precision of double
+                n = std::max<uint64_t>(1, pick(0, 4) == 0 ? pick(1, 4) : gen_size(mx));
+                switch (pick(0, 5)) { case 0: g = 1; break; case 1: g = 1ull << pick(0, 64); break; case 2: g = n; break; case 3: g = n > 1 ? n - 1 : 1; break; default: g = std::max<uint64_t>(1, gen_size(~0ull >> 1)); }
+            }
+            c.n[d] = n; c.g[d] = g; c.b[d] = c.vt == "u64" ? (n > ~0ull - 50 ? 0 : pick(0, 50)) : (uint64_t)((long long)pick(0, 100) - 50);
+            if (c.vt == "i32" && (long long)c.b[d] + (long long)n > (long long)INT_MAX) c.b[d] = (uint64_t)((long long)INT_MAX - (long long)n);
         }
     }
     return c;
@@ -179,7 +258,7 @@ int main(int argc, char** argv) {
     setenv("RC_PARAMS", params.c_str(), 1);
     struct timespec t0; clock_gettime(CLOCK_MONOTONIC, &t0);
     std::string viol; std::vector<std::string> samples;
-    static const char* PROPS[] = { "even", "prop", "nd_even", "nd_prop" };
+    static const char* PROPS[] = { "even", "prop", "nd_even", "nd_prop", "rvec" };
     for (const char* p : PROPS) {
         g_last_fail_case.clear();
         std::string prop = p;
